@@ -391,6 +391,21 @@ void note_destroying(Ctx &c, ObjBase *o) {
     peers(c, c.b8, o); peers(c, c.bw, o); peers(c, c.b16, o); peers(c, c.b32, o); peers(c, c.strs, o); peers(c, c.sss, o);
 }
 
+// any string with a definite value that does not reach the known assertion of a not-applicable property (C03, section 3.3): the conversions are
+// const calls on malformed receivers too - their result is adopted, ownership and bounds are not
+StrObj *pick_str_nohazard(Ctx &c, uint32_t sel) {
+    if (c.strs.empty()) return nullptr;
+    size_t n = c.strs.size();
+    for (size_t k = 0; k < n; k++) {       // a malformed one first, if the pool has one
+        StrObj *o = c.strs[(sel + k) % n];
+        if (o->st == M_DEFINITE && !has_c03_hazard(o->model.data(), o->model.size()) && !strict_utf8(o->model.data(), o->model.size())) return o;
+    }
+    for (size_t k = 0; k < n; k++) {
+        StrObj *o = c.strs[(sel + k) % n];
+        if (o->st == M_DEFINITE && !has_c03_hazard(o->model.data(), o->model.size())) return o;
+    }
+    return nullptr;
+}
 StrObj *pick_str_wf(Ctx &c, uint32_t sel) {
     if (c.strs.empty()) return nullptr;
     size_t n = c.strs.size();
